@@ -487,6 +487,9 @@ fn odd_field_name() -> impl Strategy<Value = String> {
         Just("x.y".to_string()),
         Just("sort key".to_string()),
         Just("Titl\u{e9}".to_string()),
+        Just("Voc\u{ea}".to_string()),
+        Just("\u{b5}".to_string()),
+        Just("\u{f5}\u{fa}".to_string()),
         "[A-Za-z]{1,5}[0-9]{1,3}",
         "[a-z]{1,4}[.:/+][a-z]{1,4}",
     ]
